@@ -1,11 +1,11 @@
 """C08 — letter case, layout and comments never change what a program means."""
-import time, re
+import time, re, os
 import z3
 from framework import kernel, Finding, fn_paths, Part, par_map, merge_part, replay_factory
 from mirsym.machine import *
 from mirsym.mirread import Unsupported
 from . import lexcommon as LC
-from mirsym import models
+from mirsym import models, dump
 
 
 # ---------------------------------------------------------------------------------------------- K1a keyword case
@@ -366,10 +366,11 @@ TEXTUAL = {
 }
 
 def _k5_job(job):
-    name, = job
+    name = job[0]; KN = job[2] if len(job) > 2 else 'K5'
     from . import C10 as K10
     ctx = _CTX; part = Part()
-    pre, word, post = TEXTUAL[name]
+    pre, word, post = job[1] if len(job) > 1 else TEXTUAL[name]
+    canon_word = job[3] if len(job) > 3 else canon_word
     P = ctx.program()
     k_parse = P.find_fn('ironplc-parser', 'parse_program')
     k_opt = [k for k in P.items if k[0] == 'ironplc-parser' and re.search(r'ParseOptions as (std::default::)?Default>::default|options::<impl at [^>]*>::default', k[1])]
@@ -386,7 +387,7 @@ def _k5_job(job):
         def parse(text_bytes):
             opts = Ref(Cell(M.call_fn(k_opt[0], []) if k_opt else Agg('ParseOptions', [False])))
             return M.call_fn(k_parse, [Ref(Cell(Str(text_bytes))), fid, opts])
-        canon = parse(list((pre + TEXTUAL_CANON.get(name, word.upper()) + post).encode()))
+        canon = parse(list((pre + canon_word + post).encode()))
         if canon.disc != 0: return ('template-rejected', None)
         r = parse(list(pre.encode()) + bs + list(post.encode()))
         if r.disc != 0: return ('rejected', None)
@@ -400,17 +401,17 @@ def _k5_job(job):
             if s.check() == z3.sat:
                 m = s.model(); w = ''.join(chr(m.eval(b, True).as_long()) if not isinstance(b, int) else chr(b) for b in _word_bytes(st['bits'], word))
                 src = pre + w + post
-                part.add(role, '%s: spelling %r %s' % (name, w, what), {'spelling': w, 'source': src}, ('textual_keyword', (pre + TEXTUAL_CANON.get(name, word.upper()) + post, src)))
+                part.add(role, '%s: spelling %r %s' % (name, w, what), {'spelling': w, 'source': src}, ('textual_keyword', (pre + canon_word + post, src)))
             s.pop()
         part.nontrivial += 1
-        if pr.panic: wit('C08/K5/%s/panic' % name, 'makes the parser panic: ' + pr.panic.msg[:50], z3.BoolVal(True)); return
+        if pr.panic: wit('C08/' + KN + '/%s/panic' % name, 'makes the parser panic: ' + pr.panic.msg[:50], z3.BoolVal(True)); return
         kind, same = pr.result
         if kind == 'template-rejected': part.inconc('%s: canonical template does not parse' % name); return
-        if kind == 'rejected': wit('C08/K5/%s/rejected' % name, 'is rejected although the canonical spelling is accepted', z3.BoolVal(True)); return
-        wit('C08/K5/%s/different-library' % name, 'parses to a different library than the canonical spelling', z3.Not(tobool(same)) if not isinstance(same, bool) else z3.BoolVal(not same))
+        if kind == 'rejected': wit('C08/' + KN + '/%s/rejected' % name, 'is rejected although the canonical spelling is accepted', z3.BoolVal(True)); return
+        wit('C08/' + KN + '/%s/different-library' % name, 'parses to a different library than the canonical spelling', z3.Not(tobool(same)) if not isinstance(same, bool) else z3.BoolVal(not same))
         if len(part.validate) < 1 and s.check() == z3.sat:
             m = s.model(); w = ''.join(chr(m.eval(b, True).as_long()) if not isinstance(b, int) else chr(b) for b in _word_bytes(st['bits'], word))
-            part.validate.append(('textual_keyword', (pre + TEXTUAL_CANON.get(name, word.upper()) + post, pre + w + post)))
+            part.validate.append(('textual_keyword', (pre + canon_word + post, pre + w + post)))
         if len(part.samples) < 1: part.samples.append({'keyword': name, 'letters': len(st['bits'])})
     M.explore(entry, on_path)
     part.queries += M.stats['smt']; part.encoded = set(M.encoded); part.models = set(M.models_used)
@@ -442,6 +443,38 @@ def k5(ctx, kr):
     kr.stubs = LC.STUB_NOTES
     kr.exhaustive = True
     kr.outside = ['other textual keywords; mixed-case spellings combined with other constructs']
+
+# ---------------------------------------------------------------------------------------------- K10 identifiers the code knows by name
+def mir_dictionary(all_words=False):
+    """every string constant in the MIR of the parser and the dsl crate that is written in one letter case and is an identifier: the spellings the code could be comparing identifier text with"""
+    d = dump.ensure_dumps(); words = {}
+    kw = {sp.upper() for sp, _, _ in LC.token_rs_words()} | set(LC.IEC_KEYWORDS)
+    for crate in ('ironplc-parser', 'ironplc-dsl'):
+        for w in re.findall(r'const "([A-Za-z][A-Za-z0-9_]{0,11})"', open(os.path.join(d, crate + '.mir')).read()):
+            if crate != 'ironplc-parser' and len(w) > 2 and not all_words: continue     # the data model's longer constants are the field names of derived Debug impls
+            if (w.isupper() or w.islower()) and w.upper() not in kw and any(c.isalpha() for c in w): words.setdefault(w.lower(), w)
+    return sorted(words)
+
+ID_ROLES = {
+    'function-block-name': ('FUNCTION_BLOCK ', '\nVAR\n  v : INT;\nEND_VAR\nEND_FUNCTION_BLOCK\n'),
+    'variable-name': ('PROGRAM p\nVAR\n  ', ' : INT;\nEND_VAR\nEND_PROGRAM\n'),
+    'type-name': ('PROGRAM p\nVAR\n  v : ', ';\nEND_VAR\nEND_PROGRAM\n'),
+}
+
+@kernel('K10 parser.identifier_case_dictionary')
+def k10(ctx, kr):
+    global _CTX
+    _CTX = ctx
+    words = mir_dictionary(ctx.tier != 'quick')
+    jobs = [('%s/%s' % (r, w), (ID_ROLES[r][0], w, ID_ROLES[r][1]), 'K10', w) for w in words for r in ID_ROLES]
+    kr.bounds = ('%d words (every one-case identifier among the string constants of the parser and dsl MIR: %s) [quick: of the data model the constants of one or two letters only] written as the name of a function block, a variable name and a type name: '
+                 'every upper/lower-case pattern of the word (one symbolic choice per letter); the respelled program must parse to the library of the lower-case spelling' % (len(words), ', '.join(words)))
+    for part in par_map(_k5_job, jobs): merge_part(kr, part)
+    P = ctx.program()
+    kr.functions = fn_paths(P, getattr(kr, '_enc', set()))[:100] + ['ironplc-parser::<TokenType as Logos>::lex (lifted)']
+    kr.stubs = LC.STUB_NOTES
+    kr.exhaustive = True
+    kr.outside = ['identifiers the code does not mention; identifiers longer than 12 letters']
 
 # ---------------------------------------------------------------------------------------------- K6 semantic rules under re-spelling
 @kernel('K6 rules.verdict_under_respelling')
@@ -668,5 +701,5 @@ def k9(ctx, kr):
     kr.exhaustive = True
     kr.outside = ['programs other than the six; two positions changed at once; layout inside tokens']
 
-KERNELS = [k1a, k1b, k2, k4, k5, k6, k7, k8, k9]
+KERNELS = [k1a, k1b, k2, k4, k5, k6, k7, k8, k9, k10]
 
